@@ -10,13 +10,21 @@ python3 - "$pid" "$d" <<'P'
 import json,sys,os
 pid,d=sys.argv[1],sys.argv[2]
 extra=""
-if not d.endswith("-a") and os.path.exists("/tmp/used_sites.json"):
+if not d.endswith("-a") and os.path.exists("/tmp/used_sites.json"):  # rounds b, c: list what earlier rounds already did
     u=json.load(open("/tmp/used_sites.json")).get(pid,[])
     if u:
         extra=("\n## Already taken (another engineer did these; pick DIFFERENT functions and mechanisms)\n\n"+"\n".join("* "+x for x in u)+
           "\n\nGo for the less central parts of what the property covers: secondary functions named in the anchors, in-place (`&mut self`) twins, by-reference operand forms and trait impls for `&T`, "
           "one particular vector size or kind (Vec8..Vec64, Extent, Rgb/Rgba, Uv/Uvw - enable cargo features as needed and say so), one matrix size or layout, conversions between types, "
           "clamped vs unclamped / precise vs fast variants, deprecated aliases, degenerate-input branches, behaviour that only differs after a *sequence* of calls.\n")
+        if d.endswith("-c"):
+            extra+=("\nFor this round, make A and B come from two DIFFERENT categories of this list (say which): "
+              "(1) a value-dependent shortcut - a fast path, early return, epsilon/threshold guard, clamp, saturating or sign-dependent branch that is right for ordinary values and wrong for some (zero, negative, tiny, huge, equal, NaN/inf where the statement covers them); "
+              "(2) a numerically different but algebraically 'equivalent' rewrite that loses accuracy or overflows/underflows only for particular magnitudes or operand relations; "
+              "(3) a change confined to one element type or one impl generated for a list of types (one of i8..u64/usize/isize, `Wrapping<_>`, f32 vs f64), to one vector kind/size, or to code behind an optional cargo feature; "
+              "(4) two cooperating edits in different places, each of which looks harmless alone and which only together break the property; "
+              "(5) a change in a shared private helper or macro arm that several public functions expand, visible through only some of them; "
+              "(6) state/ordering: something that only differs on the second call, after an in-place mutation, or for a particular interleaving of calls on the same value.\n")
 p=[json.loads(l) for l in open('/verif/properties.jsonl') if json.loads(l)['id']==pid][0]
 open(d+'/out/BRIEF.md','w').write(f"""# Brief: seed two property-breaking changes into the `vek` crate
 
